@@ -280,4 +280,21 @@ def intersectGo (cfg : Cfg) (output : List CId) : Bool â†’ List Tr â†’ List Tr â
 /-- `intersect`; `none` = the dialect error -/
 def intersect (cfg : Cfg) (p : List Tr) : Option (List Tr) := intersectGo cfg (selectCols p) false [] p
 
+/-! ### prune_inputs
+
+`prune_inputs` walks the pipeline from the back, collecting every column id the transforms mention (`CidCollector`; for a
+Join the ids of its condition, for a From nothing), and cuts the column list of each relation instance down to the ids
+collected so far - i.e. to what the instance's own Join condition and the transforms AFTER it mention. -/
+
+/-- one step on the reversed pipeline: `(used, instance columns after pruning, in scan order)` -/
+def pruneStep (st : List CId Ã— List (List CId)) (ti : Tr Ã— Info) : List CId Ã— List (List CId) :=
+  let used := st.1 ++ (ti.2.reads.getD [])
+  match ti.1 with
+  | .from cols => (used, st.2 ++ [cols.filter (used.contains Â·)])
+  | .join _ cols _ => (used, st.2 ++ [cols.filter (used.contains Â·)])
+  | _ => (used, st.2)
+
+/-- `prune_inputs`: the pruned column lists of the From / Join instances, in PIPELINE order -/
+def pruneInputs (p : List (Tr Ã— Info)) : List (List CId) := ((p.reverse.foldl pruneStep ([], [])).2).reverse
+
 end Model.Preprocess
